@@ -77,6 +77,9 @@ SIMPLE_ESC = {7: "a", 8: "b", 10: "n", 12: "f", 13: "r", 9: "t", 11: "v", 92: "\
 def esc_char(r, t, quote):
     """one rune of a "..." / '...' literal or of a class, in one of its spellings"""
     forms = []
+    if r < 0:            # a raw BYTE of the literal's value (a Go string is a byte string): only \xHH and \ooo denote one
+        b = -r
+        return ["\\x%02x" % b, "\\x%02X" % b, "\\%03o" % b][t.pick(3)]
     if r >= 32 and r != 127 and r != quote and r != 92 and not (0xD800 <= r <= 0xDFFF):
         forms.append(chr(r))
     if r in SIMPLE_ESC:
@@ -98,7 +101,7 @@ def render_string(o, t, runes, kinds=("d", "s", "r")):
     ok = ["d"]
     if len(runes) == 1 and "s" in kinds:
         ok.append("s")
-    if "r" in kinds and all(r != 96 and r != 13 for r in runes) and all(r >= 32 or r in (10, 9) for r in runes):
+    if "r" in kinds and all(r != 96 and r != 13 for r in runes) and all(r >= 32 or r in (10, 9) for r in runes) and all(r >= 0 for r in runes):
         ok.append("r")
     k = ok[t.pick(len(ok))]
     if k == "d":
@@ -188,7 +191,7 @@ def render_expr(o, t, e, ctx):
         raw = render_string(o, t, e["s"])
         if e["ic"]:
             o.w("i")
-        return node("Lit", off, val="".join(chr(r) for r in e["s"]).encode(), ic=e["ic"])
+        return node("Lit", off, val=b"".join(bytes([-r]) if r < 0 else chr(r).encode() for r in e["s"]), ic=e["ic"])
     if k == "Class":
         raw, chars, rngs, ucl = render_class(o, t, e["members"], e["inv"], e["ic"])
         return node("Class", off, val=raw.encode(), ic=e["ic"], inv=e["inv"], chars=chars, rngs=rngs, ucl=ucl)
@@ -344,7 +347,8 @@ def rand_expr(rng, d, names):
                         "State", "AndCode", "NotCode", "Throw", "Recover"])
     if k == "Lit":
         n = rng.choice([0, 1, 1, 2, 3])
-        return dict(k="Lit", s=[rand_rune(rng) for _ in range(n)], ic=rng.random() < 0.3)
+        # now and then a byte that is no UTF-8 by itself ("\xe9", '\351'): the value of a literal is a byte string
+        return dict(k="Lit", s=[(-rng.choice([0x80, 0xA9, 0xC3, 0xE9, 0xFF]) if rng.random() < 0.06 else rand_rune(rng)) for _ in range(n)], ic=rng.random() < 0.3)
     if k == "Class":
         ms = []
         if rng.random() < 0.15:       # a character, a range, a dash right after the range, more characters: [_a-c-e]
